@@ -40,9 +40,11 @@ var c15Rules = []string{
 	"a.sub.example.org##.s1",             // the same selector from a deeper domain
 	"example.com,~sub.example.org#@#.g1",
 	"~example.com##.g2", // same selector as the other generic rule, different exclusion
+	`##a[href$="#@#"]`,  // marker-like sequences inside a selector
+	`example.org##a[onclick*="#$#"]`,
 }
 
-var c15Hosts = []string{"example.org", "sub.example.org", "a.sub.example.org", "example.com", "notexample.org", "other.net", "google.com", "www.google.co.uk", "x.google.agoogle.com"}
+var c15Hosts = []string{"example.org", "sub.example.org", "a.sub.example.org", "example.com", "notexample.org", "other.net", "google.com", "www.google.co.uk", "x.google.agoogle.com", "my_app.example.org", "1.2.3.4"}
 
 // c15Reference computes the expected selector sets with CosmeticRule.Match
 // over all rules, as the property prescribes.
@@ -95,14 +97,14 @@ type c15Written struct {
 
 func c15ParseWritten(line string) c15Written {
 	var w c15Written
-	i := strings.Index(line, "#@#")
-	n := 3
-	if i < 0 {
-		i, n = strings.Index(line, "##"), 2
-	} else {
-		w.exception = true
-	}
-	if i < 0 {
+	// the marker is the one that starts at the first '#'
+	i := strings.IndexByte(line, '#')
+	n := 2
+	switch {
+	case i >= 0 && strings.HasPrefix(line[i:], "#@#"):
+		w.exception, n = true, 3
+	case i >= 0 && strings.HasPrefix(line[i:], "##"):
+	default:
 		panic(HarnessError("no element-hiding marker in " + line))
 	}
 	w.selector = line[i+n:]
@@ -191,7 +193,11 @@ func c15CheckSubset(c *Ctx, mask int, reversed bool) (evals int64, nontrivial bo
 	for _, l := range lines {
 		r, err := rules.NewCosmeticRule(l, 1)
 		if err != nil {
-			panic(HarnessError("cosmetic alphabet rule does not parse: " + l))
+			// every rule of the alphabet is a well-formed element-hiding rule: a
+			// parser that rejects one drops its selector from every result
+			c.Run.Violate(ev.Violation{Pred: "well-formed-rule-is-accepted", Sig: map[string]any{"rule": l},
+				What: fmt.Sprintf("NewCosmeticRule(%q) fails: %v", l, err), Replay: map[string]any{"mask": mask, "reversed": reversed}})
+			return 0, false
 		}
 		parsed = append(parsed, r)
 	}
